@@ -10,6 +10,9 @@ import (
 // withWatchdog runs one case; if it does not finish within sec seconds the goroutine dump goes to
 // stderr, a result line marking the hang is printed and the process exits with status 3.
 func withWatchdog(id int, sec int, f func() caseResult) caseResult {
+	if v := os.Getenv("VH_WATCHDOG"); v != "" {
+		fmt.Sscanf(v, "%d", &sec)
+	}
 	done := make(chan caseResult, 1)
 	go func() { done <- f() }()
 	select {
